@@ -72,6 +72,8 @@ ExtraSet ==
     [] ExtraPreset = "values" -> {<<"other", v>> : v \in ValueClasses}
     [] ExtraPreset = "attrs"  -> {<<a, v>> : a \in DOMAIN AttrNames, v \in {"str", "qn", "int", "subtype"}}
     [] ExtraPreset = "all"    -> {<<a, v>> : a \in DOMAIN AttrNames, v \in ValueClasses}
+(* PROV-XML types prov:label as a string: only plain and language-tagged labels are XML-expressible *)
+XmlOK(e) == ("xml" \notin Fmts) \/ e[1] # "label" \/ e[2] \in {"str", "empty", "lang", "none"}
 Final == {[op |-> FinalOp, h |-> "d1", fmt |-> f, opts |-> o] : f \in Fmts, o \in Opts}
 ExtrasOf(e) == [i \in 1..Len(Vals[e[2]]) |-> <<AttrNames[e[1]], Vals[e[2]][i]>>]
 
@@ -80,7 +82,7 @@ IdOptions(k) == IF k \in Elements THEN {<<NamePL("ex", <<"r">>)>>}
 ShapeActsK(h, k) ==
   { [op |-> "NewRec", h |-> h, k |-> k, via |-> "new_record", id |-> i,
      formals |-> FormalsOf(k, S), extras |-> ExtrasOf(e)]
-      : i \in IdOptions(k), S \in Masks(k), e \in ExtraSet }
+      : i \in IdOptions(k), S \in Masks(k), e \in {x \in ExtraSet : XmlOK(x)} }
 ShapeActs(h) == UNION { ShapeActsK(h, k) : k \in KindSet }
 
 (* second records next to the first: same identifier again (same / other kind), and a bundle *)
